@@ -179,7 +179,7 @@ def sources(ctx):
         "a if b else c if d else e", "a if b if c else d", "(a, b)", "(a,)", "()", "a, b", "a,", "[a, b,]", "[]", "{}", "{a: b, 'k': c,}",
         "'x' 'y'", "true", "True", "none", "None", "false and False", "a.b.c[d].e", "a(b, c=d)(e)", "a(b,)", "a(b c)", "a(k=1, b)",
         "a(*b)", "a(**b)", "a|f(k=1)", "a is t(k=1)", "a[b:c:d]", "a[:]", "a[::]", "a[b:]", "a[:c]", "a[::d]", "a[b,c]", "a[b:c,d]", "a[]",
-        "1.5", "a is b is c", "a is not", "a not b", "not not a", "a not in b not in c", "- - a", "-+a", "a ** b ** c", "-a ** -b",
+        "1.5", "a.0.10", "a.1.20", "a.10.1", "a.0.1.2", "a.0", "a.00", "a.1e3", "a.0.b", "a.b.0", "a[0].10", "(a.0).10", "a.0 .10", "a . 0 . 10", "a is b is c", "a is not", "a not b", "not not a", "a not in b not in c", "- - a", "-+a", "a ** b ** c", "-a ** -b",
         "a|f|g", "a is t|f", "a|f is t", "a is t and b", "a is t or b", "a is t else", "a is t if b else c", "a is t [1]", "a is t {}",
         "a is t 'x'", "a is t b.c", "a is t b|f", "a ~ b ~ c ~ d", "a < b < c", "a in b in c", "a == b != c", "(a < b) < c", "a +", "+", "a b",
         "a.", "a.'x'", "a[", "(a", "a)", "{a}", "{a:}", "[a b]", "a if", "a if b else", "a ? b", "a|", "a is", "a|1", "a if b else c, d",
@@ -332,6 +332,8 @@ def fixed_eval_cases():
         ("sl", N("i0"), C(1), C(2), None), ("sl", N("d0"), C(1), C(2), None), ("sl", N("l0"), None, None, C(0)),
         ("[]", N("o1"), N("mk0")), ("[]", N("o2"), N("mk0")), ("[]", N("o1"), ("F", C("b"), "safe", [])), ("[]", N("o2"), ("F", C("b"), "e", [])),
         ("[]", N("o1"), ("F", C("zz"), "safe", [])), ("[]", N("d0"), N("mk0")), ("[]", N("o2"), N("sk0")),
+        (".i", (".i", N("g0"), 0), 10), (".i", (".i", N("g0"), 1), 20), (".i", (".i", N("g0"), 2), 30), (".i", (".i", N("g0"), 1), 2), (".i", (".i", N("g0"), 3), 10),
+        (".i", ("[]", N("g0"), C(2)), 10), ("[]", (".i", N("g0"), 1), C(10)), (".", (".i", N("l0"), 0), "a"), (".i", N("s0"), 0), (".i", (".i", N("g0"), 10), 1),
         ("D", [(C("a"), C(1)), (C("a"), C(2))]), ("D", [(("L", []), C(1))]), (".", N("o1"), "_p"), ("[]", N("o1"), C("_p")), ("[]", N("o1"), C("_q")), (".", N("o1"), "_q"),
     ]
     return [(e, 1000 + i) for i, e in enumerate(es)]
